@@ -22,6 +22,7 @@ EXPLANATION = (
     "ValueError is raised when max|row sum - 1| exceeds the tolerance, before the normalising division "
     "and the return, and its message interpolates both the state and the action; what is returned is that "
     "P divided by its row sums, and that R.  Does not decide agreement of solutions with an independent solver."
+    ' Also decides (R17.5) that the builder does not walk the events in fixed-size blocks cut by a clamping dynamic_slice from an operand that is not padded to whole blocks.'
 )
 RULES = {
     "R17.1": "R == [s -> [a -> sum_e p(s,a,e) * r(s,a,e)]] (axes [S,A,E] agree across the vmap nests; sum over the event axis)",
